@@ -282,6 +282,10 @@ func c05(c *Ctx) {
 	c.Rep.Rule = "call graphs of generated templates: layouts using @children zero, one or several times, rendering earlier layouts (forwarding their own children), pages nesting @render inside children blocks; oracle: generator-intent inlining (block evaluated in the caller's scope, empty children when none given) vs real bytes; distinct = distinct (template, environment); non-trivial = template reaches @render"
 	o := gen.Opts{ObjRefs: false, ClassExprs: false, NonASCII: false, MaxDepth: 3, RenderHeavy: true, BlankLines: true, ShorthandElse: true, SpaceIndent: true}
 	cases := c.stdRenderCases(c.N(3, 40), 4, c.N(24, 40), c.N(5, 8), o)
+	// the same call graphs over text that is not ASCII (lines of a block that start with a multi-byte rune, after
+	// comments and filters included)
+	o.NonASCII = true
+	cases = append(cases, c.stdRenderCases(c.N(2, 20), 4, c.N(24, 40), c.N(5, 8), o)...)
 	c.renderBoth(cases)
 	c.featDist(cases)
 	c.tieRender(cases, true)
